@@ -168,7 +168,9 @@ func init() {
 			w.Invs = []int{w.Inv}
 			emit("serve", []string{"C06", mustJSON(w)}, "served/"+class, true)
 		})
-		return nil
+		// a session whose attestation is the second capability of a token attesting two things: still valid
+		return worldGen("C06", 60, 1200, genOpts{minDepth: 1, maxDepth: 4, sessions: true, sessionPct: 100, attVariant: 11,
+			kinds: []string{"none", "none", "permute", "decoys"}})(cfg, emit)
 	}
 }
 
